@@ -56,6 +56,16 @@ def htOfBtDt (t : Int) : Except PyErr Int :=
 def dtOfBtDt (t : Int) : Except PyErr Int :=
   (dtOfBt t).bind fun u => if dtAbsInRange (DT_EPOCH + u) then .ok (DT_EPOCH + u) else .error .OverflowError
 
+/-- `_convert_to_dt_datetime(ht.datetime)`: field copy drops femto/yoctoseconds (keeps tzinfo, fold) -/
+def dtAbsOfHt (q : Int) : Int := q / 1000000000000000000
+/-- `_convert_to_ht_datetime(dt.datetime)`: field copy, exact -/
+def htAbsOfDt (p : Int) : Int := p * 1000000000000000000
+
+/-- `DateTime._to_offset`: only `tzinfo == datetime.timezone.utc` is accepted (naive and every other
+    zone: ValueError); `utcEq` says whether the operand's tzinfo compares equal to timezone.utc -/
+def toOffsetChecked (utcEq : Bool) (r : Except PyErr Int) : Except PyErr Int :=
+  if utcEq then r else .error .ValueError
+
 /-- the five comparison operators on two integers of one family; `none` for non-comparison operators -/
 def cmpBool (op : Op) (a b : Int) : Option Bool :=
   match op with
@@ -189,6 +199,18 @@ def renderV : V → String
 instance : Py.Render V := ⟨renderV⟩
 
 def dispatch : List String → Option String
+  | ["convabs", f, n] =>
+    match n.toInt? with
+    | none => none
+    | some x =>
+      match f with
+      | "btDtOfDt" => some (Py.render (btDtOfDt x))
+      | "btDtOfHt" => some (Py.render (btDtOfHt x))
+      | "htOfBtDt" => some (Py.render (htOfBtDt x))
+      | "dtOfBtDt" => some (Py.render (dtOfBtDt x))
+      | "dtAbsOfHt" => some (Py.render (dtAbsOfHt x))
+      | "htAbsOfDt" => some (Py.render (htAbsOfDt x))
+      | _ => none
   | ["mixed", op, k1, n1, k2, n2] =>
     match parseOp op, n1.toInt?, n2.toInt? with
     | some o, some a, some b =>
